@@ -231,7 +231,8 @@ def kinds_rule(ck, prog):
             if t["k"] != "switch":
                 continue
             w = g.walk(ops=[t["d"]], at=(sb, T))
-            if any(n.endswith(("Vec::len", "slice::len")) for n in g.callee_names_in(w)) and any(k.startswith("lit:1:") for k in g.consts_in(w)):
+            # a decision on the number of values (`len() == 1`, `len() > 1`, `match len() { 1 => .. }`: the literal may sit in the switch)
+            if any(n.endswith(("Vec::len", "slice::len")) for n in g.callee_names_in(w)):
                 cond_ok = True
         ok = zero and bool(params) and cond_ok
         ck.ob("KIND", "sequence:one-value-is-single", ok,
